@@ -155,7 +155,9 @@ TrMinimise(ev) ==
 
 TrLearned(ev) ==
     /\ Mon("C02.NogoodImplied", MonNogoodImplied(ev.nogood), ev.nogood)
-    /\ Mon("C02.NogoodTrue", MonNogoodTrue(ev.nogood), ev.nogood)
+    \* (in all-decision mode the analysis runs on the state left by a failed assumption, where the
+    \* bounds of the assumed variable have crossed; only the learning mode is judged here)
+    /\ Mon("C02.NogoodTrue", ev.mode # "uip" \/ MonNogoodTrue(ev.nogood), ev.nogood)
     /\ IF ev.mode = "uip"
        THEN Mon("C02.Asserting", MonAsserting(ev.nogood, ev.backjump),
                 <<ev.nogood, ev.backjump, level, [i \in DOMAIN ev.nogood |-> LevelOf(ev.nogood[i])]>>)
